@@ -353,6 +353,9 @@ func (ex *Exec) invoke1(st *State, ct *callTarget, k func(*State, []Val)) {
 	case "fnvalue":
 		ex.callFnValue(st, ct, k)
 	case "iface":
+		if ex.dispatchTo(st, ct, k) {
+			return
+		}
 		key := "?"
 		if ct.ifaceNamed != nil {
 			key = ct.ifaceNamed.Obj().Pkg().Name() + "." + ct.ifaceNamed.Obj().Name() + "." + ct.name
@@ -1479,4 +1482,63 @@ func (ex *Exec) checkPanic(st *State, fi *FuncInfo, c *Contract) {
 			ex.oblige(st, "panic.frame", props, sAnd(goals...), "state unchanged when panicking: "+strings.Join(keys, ", "), pos)
 		}
 	}
+}
+
+// dispatchTo: a `dispatch Call[k] pkg.Type.Method` clause devirtualises an interface call; the
+// dynamic type of the receiver becomes a proof obligation.
+func (ex *Exec) dispatchTo(st *State, ct *callTarget, k func(*State, []Val)) bool {
+	if ex.top == nil || ex.top.Spec == nil || len(ex.top.Spec.Dispatch) == 0 || st.frame.fi != ex.top || ct.call == nil {
+		return false
+	}
+	name, ord := ex.callAnchor(ct)
+	for _, d := range ex.top.Spec.Dispatch {
+		if d.Callee != name || d.Ord != ord {
+			continue
+		}
+		parts := strings.SplitN(d.Impl, ".", 2)
+		pk := ex.prog.pkgByShort(parts[0])
+		if pk == nil || len(parts) != 2 {
+			panic(unsupported("dispatch target " + d.Impl))
+		}
+		fi := pk.Funcs[parts[1]]
+		if fi == nil || fi.Spec == nil {
+			panic(unsupported("dispatch target has no contract: " + d.Impl))
+		}
+		tname := strings.SplitN(parts[1], ".", 2)[0]
+		goal := sEq(sApp(ex.dynTypeFn(), ct.recv.T), ex.typeTag(pk.Short+"."+tname))
+		ex.oblige(st, "safe.dispatch", nil, goal, "receiver of "+name+" has dynamic type "+d.Impl, ct.call.Pos())
+		st.assume(goal)
+		// receiver retyped to the implementation's pointer type, instantiated like the interface
+		obj := pk.P.Types.Scope().Lookup(tname)
+		tn, ok := obj.(*types.TypeName)
+		if !ok {
+			panic(unsupported("dispatch type " + tname))
+		}
+		var rt types.Type = tn.Type()
+		if named, ok := rt.(*types.Named); ok && named.TypeParams() != nil && named.TypeParams().Len() > 0 && ct.ifaceNamed != nil && ct.ifaceNamed.TypeArgs() != nil {
+			var args []types.Type
+			for i := 0; i < ct.ifaceNamed.TypeArgs().Len(); i++ {
+				args = append(args, ct.ifaceNamed.TypeArgs().At(i))
+			}
+			inst, err := types.Instantiate(nil, named.Origin(), args, false)
+			if err != nil {
+				panic(unsupported("dispatch instantiate: " + err.Error()))
+			}
+			rt = inst
+		}
+		osig := fi.Obj.Type().(*types.Signature)
+		if _, isPtr := osig.Recv().Type().(*types.Pointer); isPtr {
+			rt = types.NewPointer(rt)
+		}
+		r := Val{T: ct.recv.T, S: sRef, Go: rt}
+		nct := *ct
+		nct.kind = "static"
+		nct.fi = fi
+		nct.recv = &r
+		nct.tsub = ex.recvTsub(osig, rt)
+		nct.sig = substType(osig, nct.tsub).(*types.Signature)
+		ex.callContract(st, fi.Spec, fi, &nct, k)
+		return true
+	}
+	return false
 }
